@@ -310,8 +310,9 @@ class GraphNode(HyperNode):
         if not reverse_map:
             return outputs
 
-        # Build forward map (original -> renamed) by inverting reverse map
-        forward_map = {v: k for k, v in reverse_map.items()}
+        # Build forward map (original -> renamed) from the current output names;
+        # the reverse map may still hold entries for names that were renamed away
+        forward_map = {reverse_map.get(name, name): name for name in self.outputs}
         return {forward_map.get(key, key): value for key, value in outputs.items()}
 
     def has_default_for(self, param: str) -> bool:
